@@ -330,6 +330,10 @@ func concurrency(c conc) *fw.Scenario {
 				A, gated, gh = rawpeer.Treaddir(50, 6, 0, 4000), "Readdir", 5
 			case "lopen-f":
 				A, gated, gh = rawpeer.Tlopen(50, 7, 0), "Open", 6
+			case "clunk-f7":
+				// Close belongs to no concurrency class either: a Tclunk whose
+				// backend Close takes long delays nobody
+				A, gated, gh = rawpeer.Tclunk(50, 7), "Close", 6
 			case "lock-f":
 				// Lock belongs to no concurrency class of the File contract: a
 				// lock request waiting inside the backend orders nothing at all
@@ -425,6 +429,7 @@ func run(ctx *fw.Ctx, rep *fw.Report) {
 		{"read", "getattr-root", true}, {"read", "read", true}, {"mkdir-e", "walk-d", true}, {"walk-d", "walk-d", true},
 		// read-class calls on ONE path do not order each other (WriteAt, FSync, Readdir and Open are read-class too)
 		{"write", "read", false}, {"write", "getattr-f", false}, {"write", "write-f", false}, {"write", "read", true}, {"fsync", "read", false}, {"fsync", "write-f", false},
+		{"clunk-f7", "getattr-root", false}, {"clunk-f7", "read", false}, {"clunk-f7", "walk-d", false}, {"clunk-f7", "read", true},
 		{"lock-f", "setattr-f5", false}, {"lock-f", "renameat-d", false}, {"lock-f", "renameat-d", true}, {"lock-f", "read", false},
 		{"readdir-e", "walk-e", false}, {"readdir-e", "walk-e", true}, {"lopen-f", "read", false}, {"lopen-f", "getattr-f", true}, {"read", "write-f", false},
 	} {
